@@ -3,11 +3,13 @@
    prov:ref) and _extract_attributes rebuilds from it is, after normalisation on
    insertion, the same value with the same Python kind — strings (prov:label
    included), ints, booleans, floats (under the float-oracle law), URIs,
-   language-tagged strings, and references of formal attributes.  The element-tree
-   level (nsmap, child order, subtype element names, bundles) is not modelled: it is
-   decided per run by the strict-content round-trip oracle (partial). *)
+   language-tagged strings, and references of formal attributes — and, at record level,
+   for the choice of the element name: a subtype element stands for exactly one prov:type
+   pair of the record, which the reader puts back (theorems C02_element_name_...).  The rest of the
+   element-tree level (nsmap, child order, bundles) is not modelled: it is decided per run
+   by the strict-content round-trip oracle (partial). *)
 From Coq Require Import String List ZArith.
-From Prov Require Import Str Sexp Tables Nsm NsmProofs Values Record World JsonProofs Xml XmlProofs IsoProofs TimeProofs.
+From Prov Require Import Str Sexp Tables Nsm NsmProofs Values Record World JsonProofs Xml XmlProofs IsoProofs TimeProofs XmlLabel XmlLabelProofs.
 Import ListNotations.
 Open Scope string_scope.
 
@@ -83,3 +85,28 @@ Example C02_value_time_qname_samples :
     [VTime (mkDt 2012 3 31 9 21 0 0 None); VTime (mkDt 1999 12 31 23 59 59 999999 (Some 330%Z));
      VQn (exq "other"); VLit "---30" (Some (xsd_qn "gDay")) None; VLit "yes" (Some (xsd_qn "boolean")) None] = true.
 Proof. vm_compute. reflexivity. Qed.
+
+(* ---- the element name (subtype elements): for every record class and every attribute list,
+   the writer takes out exactly one pair — a prov:type whose value is the qualified name of a
+   subtype of the record's class — or none, and the reader's treatment of the element name
+   restores the class and that type.  No other pair is touched (in particular not a URI value
+   or a second qualified name with the same URI). *)
+Theorem C02_element_name_conserves : forall kind attrs n r,
+  lookup kind prov_base_cls = Some kind ->
+  record_label kind attrs = Some (n, r) ->
+  (r = attrs /\ read_label n = Some (kind, None)) \/
+  (exists l pre k q post,
+     read_label n = Some (kind, Some l) /\
+     attrs = (pre ++ (k, VQn q) :: post)%list /\ r = (pre ++ post)%list /\
+     qn_uri k = qn_uri (prov_qn "type") /\ qn_uri q = qn_uri (prov_qn l)).
+Proof. exact record_label_conserves. Qed.
+Print Assumptions C02_element_name_conserves.
+
+Theorem C02_element_name_total : forall kind attrs, lookup kind prov_base_cls = Some kind ->
+  record_label kind attrs <> None.
+Proof. exact record_label_total. Qed.
+
+(* no subtype element is chosen unless some prov:type pair names a subtype of the class *)
+Theorem C02_element_name_plain : forall kind attrs, derive_label kind attrs = None ->
+  forall k v, In (k, v) attrs -> is_prov_name "type" k = true -> subtype_local kind v = None.
+Proof. exact derive_label_none. Qed.
